@@ -40,8 +40,15 @@ def body(root, t, src, deps, prods):
                 continue
             if kill_after is not None and n >= kill_after:
                 os._exit(77)
+            try:
+                import engine_crash
+                engine_crash.before_effect()
+            except ImportError:
+                engine_crash = None
             Path(path).write_text(str(hbody(t, src, dv, int(nid))))
             n += 1
+            if engine_crash is not None and engine_crash.STATE["root"]:
+                engine_crash.wrote(int(nid))
         if f == "raise_after":
             raise RuntimeError("injected")
     finally:
